@@ -470,6 +470,8 @@ def run(tier, seed):
           for b in (b'SSH-2.0-OpenSSH_8.9p1', b'SSH-2.0-dropbear_2022.83')]
     par.pmap(work_gex_faults, gf, stats=st, chunk=1)
     par.pmap(work_sizes, size_tasks(tier), stats=st, chunk=4)
+    from props import faultinv as _FI
+    par.pmap(_FI.work, _FI.tasks(), extra=(('unaffected',),), stats=st, chunk=6)
     par.pmap(work_bystanders, bystander_tasks(), stats=st, chunk=1)
     import itertools
     hist = [(k, f) for n in ((2,) if tier == 'quick' else (2, 3)) for k in itertools.product(sorted(HIST), repeat=n) for f in ('text', 'json')]
